@@ -3,6 +3,7 @@ package worker
 import (
 	"context"
 	"fmt"
+	"os"
 	"strings"
 	"sync"
 	"testing"
@@ -153,6 +154,18 @@ func runC11(t *testing.T, r *engine.Run) {
 		byClient[p.c] = p
 		p.c.state(v3.SecretType).names = pickNames()
 	}
+	if os.Getenv("VERIF_C11_FIXED") != "" && len(parties) >= 2 {
+		// debugging aid: the textbook warm-cache scenario (entitled party first, then a denied one, same explicit name)
+		for i, p := range parties[:2] {
+			p.ns, p.sa, p.tls, p.matching = "b", []string{"gw-sa", "other-sa"}[i], true, true
+			p.ids = []string{"spiffe://cluster.local/ns/b/sa/" + p.sa}
+			m := &model.NodeMetadata{Namespace: p.ns, ServiceAccount: p.sa, Labels: map[string]string{"istio": "ingressgateway"}, ClusterID: "Kubernetes", IstioVersion: "1.30.0"}
+			p.c.node = &core.Node{Id: fmt.Sprintf("router~10.3.2.%d~gwf-%d.b~b.svc.cluster.local", i+1, i), Metadata: m.ToStruct()}
+			p.c.tls, p.c.identities = true, p.ids
+			p.c.state(v3.SecretType).names = map[string]struct{}{"kubernetes://b/s1": {}}
+		}
+		sarPolicy[sarUser("b", "gw-sa")], sarPolicy[sarUser("b", "other-sa")] = "allow", "deny"
+	}
 	gen := 0
 	refused := map[*xdsClient]bool{}
 
@@ -260,7 +273,7 @@ func runC11(t *testing.T, r *engine.Run) {
 			}
 			acts = append(acts, fmt.Sprintf("names:%d", ci))
 		}
-		acts = append(acts, "sar", "sar", "rotate", "gap", "gap")
+		acts = append(acts, "sar", "sar", "rotate", "gap", "gap", "push")
 		a := acts[tp.Choose(len(acts), "act")]
 		tp.Note(strings.SplitN(a, ":", 2)[0])
 		var ci int
@@ -302,6 +315,13 @@ func runC11(t *testing.T, r *engine.Run) {
 				r.Logf("secret %s/%s rotated to gen%d", ns, name, gen)
 			}
 			synctest.Wait()
+		case a == "push":
+			// a forced global push (mesh config change, resync): afterwards every connected proxy has a push time newer
+			// than the cache's last invalidation, so what it generates on request is cached and shared
+			inst.fds.Discovery.ConfigUpdate(&model.PushRequest{Forced: true, Reason: model.NewReasonStats(model.GlobalUpdate)})
+			synctest.Wait()
+			w.advance(70 * time.Millisecond)
+			r.Probe("global_push")
 		case a == "gap":
 			// also lets the authorisation cache of the credentials controller expire from time to time
 			if tp.Bool(1, 3, "long") {
